@@ -16,7 +16,7 @@ def vectors(ctx, lane="P"):
     for code in range(8192):
         V.append({"fn": "common.altitude", "code": code})
         for df in (0, 4, 16, 20):
-            for rep in range(ctx.pick(1, 3)):
+            for rep in range(ctx.pick(1, 10)):
                 f = gen.rand_frame_df(rng, df)
                 if rep == 1:
                     f = [df << 3] + [0] * (len(f) - 1)
@@ -32,7 +32,7 @@ def vectors(ctx, lane="P"):
             V.append({"fn": "surv.altitude", "frame": f, "code": gen.get_bits(f, 20, 32)})
     for fld in range(4096):
         for tcs in ((9, 18), (20, 22)):
-            for rep in range(ctx.pick(1, 3)):
+            for rep in range(ctx.pick(1, 12)):
                 tc = rng.randint(*tcs) if rep else tcs[0] + (fld % (tcs[1] - tcs[0] + 1))
                 f = gen.rand_frame_df(rng, rng.choice([17, 17, 18]))
                 f = gen.set_bits(f, 33, 37, tc)
